@@ -232,6 +232,16 @@ def drive(fam, progs, name, shards=NCPU, race=False, timeout=1800):
     return files
 
 
+def history_of(progs, prog_id, shards=NCPU):
+    """The programs that ran before prog_id in its driver process (core.drive shards in order), including it: a verdict may
+    depend on process-wide state left by earlier programs."""
+    for part in shard(progs, shards):
+        ids = [p["id"] for p in part]
+        if prog_id in ids:
+            return part[:ids.index(prog_id) + 1]
+    return None
+
+
 REJ_RE = re.compile(r'<<"REJECTED-AT", (\d+), (\d+)>>')
 
 
